@@ -105,7 +105,10 @@ def hIMH : Handler := fun c => do
   let lus ← getList jsonToOptRat c "lus"
   let r := imhEstimate (fun i => ratios.getD i 0) (fun i => fs.getD i 0) (fun i => sup.getD i false)
     N burn tries init draws lus
-  pure (objJ [("v", optJ ratJ r)])
+  -- the same call as the list of recorded values f(b_t) (C19_imh_values: `v` is their mean)
+  let vals := imhValues (fun i => ratios.getD i 0) (fun i => fs.getD i 0) (fun i => sup.getD i false)
+    N burn tries init draws lus
+  pure (objJ [("v", optJ ratJ r), ("recorded", optJ (listJ ratJ) vals)])
 
 /-- `c19.relax`: combination logic of RelaxEstimator / StraightThroughEstimator on per-sample
 dual numbers. {samples: [{f, cvz:[v,g], cvzcond:[v,g], logp:[v,g]}]} -/
